@@ -211,6 +211,40 @@ template <class X> struct Q {
 
 static Q<ApiA>* qA; static Q<ApiW>* qW;
 static void wide_above_255_list(Ctx& c);
+// Dissecting a query whose single key is 2^32 + 3 characters long (char API; one 1 MiB page-cache file mapped behind itself 4097 times:
+// address space only, the pages are read but never copied). "Size computations that would exceed INT_MAX are refused rather than
+// wrapped": the call has to fail (or ask its manager for 4 GiB, which the manager refuses). The pinned library keeps the length in an
+// int -- 3 -- and succeeds with the key "aaa" (independent review, hunt H09-f3; with 2^32 - 1 characters the length is -1 and a byte in
+// front of the block is written, which is why that length is not probed). Recorded finding; fast build only.
+#include <sys/mman.h>
+#include <unistd.h>
+static void giant_key_dissect(Ctx& c) {
+    const size_t piece = (size_t)1 << 20; const size_t nchars = ((size_t)1 << 32) + 3; const size_t total = (nchars + piece - 1) / piece * piece;
+    int fd = memfd_create("vf-giant-key", 0); if (fd < 0 || ftruncate(fd, (off_t)piece) != 0) { if (fd >= 0) close(fd); c.count("giant_key_skipped"); return; }
+    { std::vector<char> one(piece, 'a'); if (write(fd, one.data(), piece) != (ssize_t)piece) { close(fd); c.count("giant_key_skipped"); return; } }
+    char* base = (char*)mmap(nullptr, total, PROT_NONE, MAP_PRIVATE | MAP_ANONYMOUS | MAP_NORESERVE, -1, 0);
+    if (base == MAP_FAILED) { close(fd); c.count("giant_key_skipped"); return; }
+    bool ok = true; for (size_t off = 0; off < total && ok; off += piece) ok = mmap(base + off, piece, PROT_READ, MAP_SHARED | MAP_FIXED, fd, 0) != MAP_FAILED;
+    if (ok) {
+        struct Rec { UriMemoryManager mm; size_t largest = 0; } rec; memset(&rec.mm, 0, sizeof rec.mm); rec.mm.userData = &rec;
+        rec.mm.malloc = [](UriMemoryManager* m, size_t n) -> void* { Rec* r = (Rec*)m->userData; if (n > r->largest) r->largest = n; if (n > ((size_t)64 << 20)) { errno = ENOMEM; return nullptr; } return raw_malloc(n ? n : 1); };
+        rec.mm.calloc = [](UriMemoryManager* m, size_t a, size_t b) -> void* { Rec* r = (Rec*)m->userData; if (b && a > (size_t)-1 / b) return nullptr; if (a * b > r->largest) r->largest = a * b; if (a * b > ((size_t)64 << 20)) { errno = ENOMEM; return nullptr; } void* p = raw_malloc(a * b ? a * b : 1); if (p) memset(p, 0, a * b); return p; };
+        rec.mm.realloc = [](UriMemoryManager*, void*, size_t) -> void* { return nullptr; };
+        rec.mm.reallocarray = [](UriMemoryManager*, void*, size_t, size_t) -> void* { return nullptr; };
+        rec.mm.free = [](UriMemoryManager*, void* p) { if (p) raw_free(p); };
+        UriQueryListA* list = nullptr; int count = -1; int rc;
+        { LibScope ls; rc = uriDissectQueryMallocExMmA(&list, &count, base, base + nchars, URI_FALSE, URI_BR_DONT_TOUCH, &rec.mm); }
+        c.evaluations++; c.count("giant_key_dissected");
+        size_t klen = (rc == URI_SUCCESS && list && list->key) ? strlen(list->key) : 0;
+        Str what = fmt("uriDissectQueryMallocExMmA on one key of %zu characters: rc=%d count=%d, key of %zu characters returned, largest request %zu bytes", nchars, rc, count, klen, rec.largest);
+        if (rc == URI_SUCCESS) {
+            if (klen == (size_t)(unsigned)nchars) c.violation("C17", "query/A/dissect-key-longer-than-INT_MAX-length-truncated-to-int", what);
+            else c.violation("C17", "query/A/dissect-key-longer-than-INT_MAX-otherwise", what);
+            LibScope ls; uriFreeQueryListMmA(list, &rec.mm);
+        } else c.count("giant_key_refused");
+    } else c.count("giant_key_skipped");
+    munmap(base, total); close(fd);
+}
 static void run_case(Ctx& c, uint64_t idx) {
     if (!qA) { qA = new Q<ApiA>(); qW = new Q<ApiW>(); }
     Rng& r = c.rng; uint64_t ns = nsplit(c), nh = nhuge(c);
@@ -232,6 +266,7 @@ static void run_case(Ctx& c, uint64_t idx) {
         uint64_t i = c.case_index - ns - nh - 255 * 4; c.note(fmt("query multi-item INT_MAX variant %llu", (unsigned long long)i)); c.attribute("C17"); c.distinct(99000 + i);
         if (i & 1) qW->multi_check(c, (unsigned)(i >> 1)); else qA->multi_check(c, (unsigned)(i >> 1)); return;
     }
+    if (idx == 0 && c.build == "fast") { c.note("query giant key"); c.attribute("C17"); giant_key_dissect(c); }
     if (idx < nh) { c.note("query huge"); c.attribute("C17"); qA->huge_check(c, (int)(idx % 6)); if (c.tier == "thorough" && (idx % 6 == 0 || idx % 6 == 2 || idx % 6 == 4)) qW->huge_check(c, (int)(idx % 6)); c.distinct(idx + 12345); return; }
     // item counts: mostly few; now and then many, half of those at the counts where a fixed-size table, a batch or a counter type would end
     static const int COUNTS[] = {15, 16, 17, 31, 32, 33, 63, 64, 65, 99, 100, 101, 127, 128, 129, 255, 256, 257};
